@@ -29,8 +29,10 @@ func main() {
 	noRename := flag.Bool("norename", false, "do not rename (use with -invertif / -swapcmp)")
 	invertIf := flag.Bool("invertif", false, "rewrite every if c {A} else {B} as if !(c) {B} else {A}")
 	swapCmp := flag.Bool("swapcmp", false, "mirror comparisons whose operands have no side effects: a < b becomes b > a, a == b becomes b == a")
+	condLocal := flag.Bool("condlocal", false, "keep every compound if-condition in a local first: if a && b {…} becomes cN := a && b; if cN {…}")
 	flag.Parse()
-	if *dir == "" || strings.HasPrefix(*dir, "/repo") {
+	condLocalOn = *condLocal
+	if *dir == ""|| strings.HasPrefix(*dir, "/repo") {
 		fmt.Fprintln(os.Stderr, "renamelocals: -dir must name a scratch copy")
 		os.Exit(2)
 	}
@@ -70,13 +72,18 @@ func main() {
 			if *swapCmp {
 				n += swapComparisons(p, f)
 			}
+			if condLocalOn {
+				n += condLocals(f)
+			}
 			if n == 0 {
 				continue
 			}
 			var buf bytes.Buffer
 			if err := format.Node(&buf, cfg.Fset, f); err != nil {
-				fmt.Fprintln(os.Stderr, "format", name, err)
-				os.Exit(2)
+				// comments inside a moved expression can defeat the printer: leave
+				// that file as it is
+				fmt.Fprintln(os.Stderr, "skipped (cannot be printed):", name, err)
+				continue
 			}
 			if err := os.WriteFile(name, buf.Bytes(), 0o644); err != nil {
 				fmt.Fprintln(os.Stderr, err)
@@ -87,6 +94,43 @@ func main() {
 		}
 	}
 	fmt.Printf("renamelocals: %d identifiers renamed in %d files of %d packages\n", idents, files, len(pkgs))
+}
+
+var condLocalOn bool
+
+// condLocals rewrites, in every statement list, "if a && b {…}" (a compound
+// condition, no init statement, not an else-if) as "condZzN := a && b; if
+// condZzN {…}": the same expression is evaluated once, at the same point.
+func condLocals(f *ast.File) int {
+	n := 0
+	rewrite := func(list []ast.Stmt) []ast.Stmt {
+		var out []ast.Stmt
+		for _, st := range list {
+			ifs, ok := st.(*ast.IfStmt)
+			if ok && ifs.Init == nil {
+				if be, isB := ifs.Cond.(*ast.BinaryExpr); isB && (be.Op == token.LAND || be.Op == token.LOR) {
+					n++
+					name := ast.NewIdent(fmt.Sprintf("condZz%d", n))
+					out = append(out, &ast.AssignStmt{Lhs: []ast.Expr{name}, Tok: token.DEFINE, Rhs: []ast.Expr{ifs.Cond}})
+					ifs.Cond = ast.NewIdent(name.Name)
+				}
+			}
+			out = append(out, st)
+		}
+		return out
+	}
+	ast.Inspect(f, func(nd ast.Node) bool {
+		switch x := nd.(type) {
+		case *ast.BlockStmt:
+			x.List = rewrite(x.List)
+		case *ast.CaseClause:
+			x.Body = rewrite(x.Body)
+		case *ast.CommClause:
+			x.Body = rewrite(x.Body)
+		}
+		return true
+	})
+	return n
 }
 
 // invertIfs rewrites if c {A} else {B} (B a plain block, not an else-if) as
